@@ -255,3 +255,90 @@ func VerifC15FillIn() {
 		}
 	}
 }
+
+// VerifC15Profiles: profile activation by OS criteria and by default, and what MergeProfiles makes of it. Two
+// profiles whose OS criteria come from a table (absent, matching in lower or upper case, not matching, negated
+// matching, negated not matching), each optionally active by default; each brings one property "k" and one
+// dependency. Reference: a profile with criteria is active when every stated criterion allows the fixed OS
+// (comparison not case sensitive, a leading ! negates); a profile without criteria is never active; default
+// profiles count only when no profile is active; active profiles contribute their dependencies after the
+// project's own, in declaration order, and their properties over the project's, later profiles over earlier.
+var c15OSVals = []string{"", "unix", "UNIX", "windows", "!unix", "!windows", "!Windows"}
+var c15NameVals = []string{"", "linux", "Linux", "mac", "!linux", "!mac"}
+
+func c15Allowed(crit, actual string) bool {
+	if crit == "" {
+		return true
+	}
+	neg := false
+	if crit[0] == '!' {
+		neg = true
+		crit = crit[1:]
+	}
+	low := ""
+	for i := 0; i < len(crit); i++ {
+		c := crit[i]
+		if 'A' <= c && c <= 'Z' {
+			c += 'a' - 'A'
+		}
+		low += string([]byte{c})
+	}
+	return (low == actual) != neg
+}
+
+func VerifC15Profiles() {
+	osv := OSProfileActivation
+	var profs []Profile
+	var wantActive, isDefault []bool
+	for i := 0; i < 2; i++ {
+		tag := "p" + c15N[i]
+		fam, name := c15OSVals[vParam(tag+"f")], c15NameVals[vParam(tag+"n")]
+		arch := ""
+		if vParam(tag+"a") == 1 {
+			arch = "amd64"
+		} else if vParam(tag+"a") == 2 {
+			arch = "!amd64"
+		}
+		pr := Profile{ID: String(tag)}
+		pr.Activation.OS = ActivationOS{Family: String(fam), Name: String(name), Arch: String(arch)}
+		def := vParam(tag+"d") == 1
+		if def {
+			pr.Activation.ActiveByDefault = "true"
+		}
+		pr.Properties.Properties = []Property{{Name: "k", Value: tag}}
+		pr.Dependencies = []Dependency{{GroupID: "g", ArtifactID: String(tag), Version: "1"}}
+		profs = append(profs, pr)
+		has := fam != "" || name != "" || arch != ""
+		wantActive = append(wantActive, has && c15Allowed(fam, string(osv.Family)) && c15Allowed(name, string(osv.Name)) && c15Allowed(arch, string(osv.Arch)))
+		isDefault = append(isDefault, def)
+	}
+	p := Project{}
+	p.Properties.Properties = []Property{{Name: "k", Value: "own"}}
+	p.Dependencies = []Dependency{{GroupID: "g", ArtifactID: "own", Version: "1"}}
+	p.Profiles = profs
+	err := p.MergeProfiles(JDKProfileActivation, osv)
+	vAssert(err == nil, "merging profiles with well-formed criteria succeeds")
+	any := wantActive[0] || wantActive[1]
+	want := []string{"own"}
+	last := "own"
+	for i := 0; i < 2; i++ {
+		if wantActive[i] || (!any && isDefault[i]) {
+			want = append(want, "p"+c15N[i])
+			last = "p" + c15N[i]
+		}
+	}
+	vCover(any, "a profile activated by its OS criteria")
+	vCover(!any && (isDefault[0] || isDefault[1]), "default profiles used because no profile is active")
+	vCover(any && (isDefault[0] && !wantActive[0] || isDefault[1] && !wantActive[1]), "a default profile left out because another profile is active")
+	vAssert(len(p.Dependencies) == len(want), "the dependencies are the project's own followed by those of the active profiles")
+	if len(p.Dependencies) == len(want) {
+		for i := range want {
+			vAssert(string(p.Dependencies[i].ArtifactID) == want[i], "the dependencies are the project's own followed by those of the active profiles, in declaration order")
+		}
+	}
+	m, merr := p.propertyMap()
+	vAssert(merr == nil, "the property table is built")
+	if merr == nil {
+		vAssert(m["k"] == last, "a property of an active profile overrides the project's, a later profile an earlier one")
+	}
+}
